@@ -199,3 +199,245 @@ func reachesForward(a, b ssa.Instruction) bool {
 	}
 	return walk(a.Block())
 }
+
+func init() {
+	engine.Register("R-PEGFIELD", rulePegField)
+	engine.Register("N-ACCUSE", ruleNAccUse)
+	engine.Register("O-PUTCLEAN", rulePutClean)
+}
+
+// rulePegField: R-PEGFIELD — state that the actions or the hand-written parse code keep in the
+// generated parser's own struct, next to the embedded action state, survives Parse: the
+// deferred closure wipes the action state only, and the generated reset covers the matcher's
+// variables only. Every such field that is written outside the generated engine must be
+// assigned afresh by Parse before the matcher runs (as the input buffer is); otherwise one
+// Parse leaves something behind for the next (a counter that is not brought back on a panic,
+// a cache).
+func rulePegField(c *engine.Context) *report.Rule {
+	r := report.NewRule("R-PEGFIELD", "fields of the parser struct outside the action state that parse code writes are assigned afresh by every Parse", 1)
+	p := c.P
+	asIdx := actionStateIndex(p)
+	if asIdx < 0 || p.Roles.Parse == nil {
+		r.InfraFail("anchor unresolved: action-state field of the parser type")
+		return r
+	}
+	isParserPtr := func(t types.Type) bool {
+		pt, ok := t.Underlying().(*types.Pointer)
+		return ok && types.Identical(pt.Elem(), p.Roles.ParserType)
+	}
+	pst := p.Roles.ParserType.Underlying().(*types.Struct)
+	type site struct {
+		fn  *ssa.Function
+		ins ssa.Instruction
+	}
+	written := map[int][]site{}
+	for _, fn := range p.Funcs {
+		if fn.Blocks == nil || !p.InPkg(fn) {
+			continue
+		}
+		if p.FuncIsGenerated(fn) && fn.Name() != "Execute" {
+			continue // the engine's own variables are R-PEGRESET's business
+		}
+		for _, b := range fn.Blocks {
+			for _, ins := range b.Instrs {
+				st, ok := ins.(*ssa.Store)
+				if !ok {
+					continue
+				}
+				fa, ok := st.Addr.(*ssa.FieldAddr)
+				if !ok || !isParserPtr(fa.X.Type()) || fa.Field == asIdx {
+					continue
+				}
+				written[fa.Field] = append(written[fa.Field], site{fn, st})
+			}
+		}
+	}
+	// where Parse starts the matcher: the first call of a method of the parser type
+	parse := p.Roles.Parse
+	var start ssa.Instruction
+	for _, b := range parse.Blocks {
+		for _, ins := range b.Instrs {
+			if call, ok := ins.(*ssa.Call); ok && start == nil {
+				if sc := call.Call.StaticCallee(); sc != nil && sc.Signature.Recv() != nil && isParserPtr(sc.Signature.Recv().Type()) && (sc.Name() == "Parse" || sc.Name() == "Execute") {
+					start = call
+				}
+			}
+		}
+	}
+	if start == nil {
+		r.InfraFail("anchor unresolved: the call that starts the matcher in Parse")
+		return r
+	}
+	var fields []int
+	for f := range written {
+		fields = append(fields, f)
+	}
+	sortInts(fields)
+	for _, f := range fields {
+		r.Instances++
+		fresh := false
+		for _, s := range written[f] {
+			if s.fn == parse && instrDominates(s.ins, start) {
+				fresh = true
+			}
+		}
+		r.Oblige(fresh)
+		r.Sample("parser field %s written by parse code is assigned by Parse before the matcher starts: %v", pst.Field(f).Name(), fresh)
+		if !fresh {
+			s := written[f][0]
+			r.Violation("parser field "+pst.Field(f).Name()+" outlives Parse", p.RelPos(s.ins.Pos()),
+				"%s writes the field %s of the generated parser's struct; it is not part of the action state that Parse's deferred closure wipes, not one of the matcher variables the generated reset assigns, and Parse does not assign it before starting the matcher: what one Parse leaves there (also when it ends in a panic) is seen by the next", load.FuncName(s.fn), pst.Field(f).Name())
+		}
+	}
+	return r
+}
+
+func sortInts(a []int) {
+	for i := 1; i < len(a); i++ {
+		for j := i; j > 0 && a[j] < a[j-1]; j-- {
+			a[j], a[j-1] = a[j-1], a[j]
+		}
+	}
+}
+
+// ruleNAccUse: N-ACCUSE — the accessor flag of a node decides how a selected value is wrapped
+// and nothing else. Every read of the flag in evaluation code is the test that selects between
+// the plain and the accessor branch of an emission site; a read that feeds any other decision
+// (skipping, de-duplicating, choosing another path) makes the two modes select different values.
+func ruleNAccUse(c *engine.Context) *report.Rule {
+	r := report.NewRule("N-ACCUSE", "during evaluation the accessor flag is read only to choose the wrapping at an emission site", 3)
+	p := c.P
+	flagField := -1
+	guards := map[*ssa.If]bool{}
+	for _, es := range findEmitSites(c) {
+		if es.guard != nil {
+			guards[es.guard] = true
+			if base, f, ok := boolFieldLoad(es.guard.Cond); ok {
+				if pt, isP := base.Type().Underlying().(*types.Pointer); isP && types.Identical(pt.Elem(), p.Roles.BasicNode) {
+					flagField = f
+				}
+			}
+		}
+	}
+	if flagField < 0 {
+		r.InfraFail("anchor unresolved: accessor flag field")
+		return r
+	}
+	for _, fn := range evalFuncs(c) {
+		for _, b := range fn.Blocks {
+			for _, ins := range b.Instrs {
+				ld, ok := ins.(*ssa.UnOp)
+				if !ok {
+					continue
+				}
+				fa, ok := ld.X.(*ssa.FieldAddr)
+				if !ok || fa.Field != flagField {
+					continue
+				}
+				pt, isP := fa.X.Type().Underlying().(*types.Pointer)
+				if !isP || !types.Identical(pt.Elem(), p.Roles.BasicNode) {
+					continue
+				}
+				r.Instances++
+				ok = true
+				var bad ssa.Instruction
+				for _, ref := range *ld.Referrers() {
+					switch x := ref.(type) {
+					case *ssa.If:
+						if !guards[x] {
+							ok, bad = false, x
+						}
+					case *ssa.DebugRef:
+					default:
+						ok, bad = false, ref
+					}
+				}
+				r.Oblige(ok)
+				if len(r.Samples) < 4 {
+					r.Sample("%s: the flag read only selects the wrapping: %v", load.FuncName(fn), ok)
+				}
+				if !ok {
+					r.Violation("accessor flag decides more than the wrapping in "+load.FuncName(fn), p.RelPos(bad.Pos()),
+						"%s reads the node's accessor flag for something other than choosing between the plain and the accessor form of a value it emits: what is selected then depends on the mode, so accessor mode and plain mode return different sequences", load.FuncName(fn))
+				}
+			}
+		}
+	}
+	return r
+}
+
+// rulePutClean: O-PUTCLEAN — releasing a result buffer to its pool only truncates it. The
+// buffer's list is handed out as it is (an aggregate function receives it, a user function may
+// return it, the exported copy is taken from it): a release that also writes elements — to
+// "forget" the caller's values — writes into a backing array somebody may still hold.
+func rulePutClean(c *engine.Context) *report.Rule {
+	r := report.NewRule("O-PUTCLEAN", "a pooled result buffer is only truncated when it is released, never written", 1)
+	p := c.P
+	if p.Roles.SinkType == nil || p.Roles.SinkField == nil {
+		r.InfraFail("anchor unresolved: result sink type")
+		return r
+	}
+	sinkFieldIdx := -1
+	if st, ok := p.Roles.SinkType.Underlying().(*types.Struct); ok {
+		for i := 0; i < st.NumFields(); i++ {
+			if st.Field(i) == p.Roles.SinkField {
+				sinkFieldIdx = i
+			}
+		}
+	}
+	for _, fn := range p.Funcs {
+		if fn.Blocks == nil || !p.InPkg(fn) || p.FuncIsGenerated(fn) {
+			continue
+		}
+		// a releasing function: calls (*sync.Pool).Put with a sink
+		releases := false
+		for _, b := range fn.Blocks {
+			for _, ins := range b.Instrs {
+				if call, ok := ins.(ssa.CallInstruction); ok {
+					if sc := call.Common().StaticCallee(); sc != nil && sc.Name() == "Put" && sc.Pkg != nil && sc.Pkg.Pkg.Path() == "sync" {
+						for _, a := range call.Common().Args {
+							if mi, ok := a.(*ssa.MakeInterface); ok {
+								if pt, ok := mi.X.Type().Underlying().(*types.Pointer); ok && types.Identical(pt.Elem(), p.Roles.SinkType) {
+									releases = true
+								}
+							}
+						}
+					}
+				}
+			}
+		}
+		if !releases {
+			continue
+		}
+		r.Instances++
+		ok := true
+		var bad ssa.Instruction
+		for _, b := range fn.Blocks {
+			for _, ins := range b.Instrs {
+				switch x := ins.(type) {
+				case *ssa.Store:
+					if ia, isIA := x.Addr.(*ssa.IndexAddr); isIA {
+						if ld, isLd := ia.X.(*ssa.UnOp); isLd {
+							if fa, isFA := ld.X.(*ssa.FieldAddr); isFA && fa.Field == sinkFieldIdx {
+								if pt, ok2 := fa.X.Type().Underlying().(*types.Pointer); ok2 && types.Identical(pt.Elem(), p.Roles.SinkType) {
+									ok, bad = false, x
+								}
+							}
+						}
+					}
+				case *ssa.Call:
+					if bi, isB := x.Call.Value.(*ssa.Builtin); isB && (bi.Name() == "clear" || bi.Name() == "copy") {
+						ok, bad = false, x
+					}
+				}
+			}
+		}
+		r.Oblige(ok)
+		r.Sample("%s releases a result buffer without writing its elements: %v", load.FuncName(fn), ok)
+		if !ok {
+			r.Violation("release of a result buffer writes its elements in "+load.FuncName(fn), p.RelPos(bad.Pos()),
+				"%s stores into the elements of the result list before it puts the buffer back into the pool: the list's backing array was handed to an aggregate function (and may have been returned by it, or be the array the exported results are still copied from), so values a caller holds are overwritten", load.FuncName(fn))
+		}
+	}
+	return r
+}
